@@ -48,7 +48,7 @@ theorem trimL_spec (s : Bytes) : ∀ (sp pre core post : Bytes) (fuel right : Na
           have hrd : Idx.rd s pre.length = .ok c := by
             rw [hs]; simp only [List.append_nil, List.append_assoc, List.cons_append]
             exact Idx.rd_at pre c (t ++ post)
-          rw [hrd, Res.bind_ok, hcore c rfl]
+          rw [hrd, IxRes.bind_ok, hcore c rfl]
           simp
       · rw [if_neg hle]; simp
   | x :: sp', pre, core, post, fuel, right, hs, hr, hsp, hcore, hf => by
@@ -60,7 +60,7 @@ theorem trimL_spec (s : Bytes) : ∀ (sp pre core post : Bytes) (fuel right : Na
       have hrd : Idx.rd s pre.length = .ok x := by
         rw [hs]; simp only [List.append_assoc, List.cons_append]
         exact Idx.rd_at pre x _
-      rw [if_pos hle, hrd, Res.bind_ok, hsp x (by simp)]
+      rw [if_pos hle, hrd, IxRes.bind_ok, hsp x (by simp)]
       simp only [if_true]
       have := trimL_spec s sp' (pre ++ [x]) core post f right (by rw [hs]; simp) (by simp at hr ⊢; omega)
         (fun c hc => hsp c (by simp [hc])) hcore (by simp at hf; omega)
@@ -95,7 +95,7 @@ theorem trimR_spec (s : Bytes) : ∀ (n : Nat) (sp2 pre core post : Bytes) (fuel
             rw [hs, hpos]
             have : pre ++ (init ++ [y]) ++ [] ++ post = (pre ++ init) ++ y :: post := by simp
             rw [this]; exact Idx.rd_at _ y post
-          rw [hrd, Res.bind_ok, hlast y (by simp)]
+          rw [hrd, IxRes.bind_ok, hlast y (by simp)]
           exact ⟨right, by simp, by simp at hr ⊢; omega⟩
       · rw [if_neg hle]
         exact ⟨right, rfl, by simp at hr ⊢; omega⟩
@@ -120,9 +120,9 @@ theorem trimR_spec (s : Bytes) : ∀ (n : Nat) (sp2 pre core post : Bytes) (fuel
           rw [hs, hpos]
           have : pre ++ core ++ (L ++ [x]) ++ post = (pre ++ core ++ L) ++ x :: post := by simp
           rw [this]; exact Idx.rd_at _ x post
-        rw [if_pos hle, hrd, Res.bind_ok, hsp x (by simp)]
+        rw [if_pos hle, hrd, IxRes.bind_ok, hsp x (by simp)]
         simp only [if_true]
-        rw [usub_ok right 1 (by simp at hr; omega), Res.bind_ok]
+        rw [usub_ok right 1 (by simp at hr; omega), IxRes.bind_ok]
         exact ih L pre core (x :: post) f (right - 1) (by simp at hn; omega) (by rw [hs]; simp)
           (by simp at hr ⊢; omega) (fun c hc => hsp c (by simp [hc])) (fun h => absurd h hcne) hlast (by simp at hf; omega)
 
@@ -172,13 +172,13 @@ theorem trim3_spec (pre mid post : Bytes) (right : Nat) (hr : right + 1 = pre.le
     | nil => rw [hcore_nil rfl] at hch; simp at hch
     | cons x t => exact hhead' c (by simpa using hch)
   rw [trimL_spec _ sp1 pre (core ++ sp2) post _ right hs (by rw [hmid] at hr; simp at hr ⊢; omega) hsp1 hheadcs hlen,
-    Res.bind_ok]
+    IxRes.bind_ok]
   have hs2 : pre ++ mid ++ post = (pre ++ sp1) ++ core ++ sp2 ++ post := by rw [hmid]; simp
   have hl2 : pre.length + sp1.length = (pre ++ sp1).length := by simp
   rw [hl2]
   obtain ⟨r', hr1, hr2⟩ := trimR_spec _ sp2.length sp2 (pre ++ sp1) core post ((pre ++ mid ++ post).length + 1) right rfl hs2
     (by rw [hmid] at hr; simp at hr ⊢; omega) hsp2' hcore_nil hlast hlen2
-  rw [hr1, Res.bind_ok, usub_ok _ _ (by omega), Res.bind_ok]
+  rw [hr1, IxRes.bind_ok, usub_ok _ _ (by omega), IxRes.bind_ok]
   have hn : 1 + r' - (pre ++ sp1).length = core.length := by omega
   have e : (pre ++ sp1) ++ core ++ sp2 ++ post = (pre ++ sp1) ++ core ++ (sp2 ++ post) := by simp
   rw [hn, hs2, e]
@@ -191,7 +191,7 @@ theorem trim1_spec (s : Bytes) : trim1 s = .ok (trim s) := by
   | nil => rfl
   | cons c t =>
     simp only [List.isEmpty_cons, Bool.false_eq_true, if_false]
-    rw [usub_ok _ _ (by simp), Res.bind_ok]
+    rw [usub_ok _ _ (by simp), IxRes.bind_ok]
     have := trim3_spec [] (c :: t) [] ((c :: t).length - 1) (by simp)
     simpa using this
 
@@ -241,7 +241,7 @@ theorem splitMember_spec (m : Bytes) (kvsep : UInt8) : splitMember m kvsep = .ok
           rw [e]
           have := Idx.substrFrom_end (k ++ [kvsep]) v
           simpa using this
-        rw [h1, Res.bind_ok, h2, Res.bind_ok]
+        rw [h1, IxRes.bind_ok, h2, IxRes.bind_ok]
 
 /-! ### the tokenizer loop -/
 
@@ -283,11 +283,11 @@ theorem tokLoop_spec (s : Bytes) (msep kvsep : UInt8) : ∀ (fuel : Nat) (rest p
           -- the last member: no further separator
           have e := (takeTok_none htk).1
           simp only [Option.map_none]
-          rw [usub_ok _ _ (by simp only [List.length_append, List.length_cons]; omega), Res.map_ok, Res.bind_ok]
+          rw [usub_ok _ _ (by simp only [List.length_append, List.length_cons]; omega), IxRes.map_ok, IxRes.bind_ok]
           simp only []
           have ht3 := trim3_spec pre (c :: t) [] ((pre ++ c :: t).length - 1) (by simp; omega)
           rw [List.append_nil] at ht3
-          rw [ht3, Res.bind_ok, ← e]
+          rw [ht3, IxRes.bind_ok, ← e]
           have hpast : ¬ (pre ++ c :: t).length - 1 + 2 < (pre ++ c :: t).length := by omega
           by_cases hm : (trim (c :: t)).isEmpty = true
           · have hl : (trim (c :: t)).length = 0 := by simpa [List.isEmpty_iff] using hm
@@ -297,7 +297,7 @@ theorem tokLoop_spec (s : Bytes) (msep kvsep : UInt8) : ∀ (fuel : Nat) (rest p
           · have hl : ¬ (trim (c :: t)).length = 0 := by
               intro h0; apply hm; simpa [List.isEmpty_iff] using h0
             simp only [hl, decide_false, Bool.or_self, Bool.false_eq_true, if_false, hm]
-            rw [splitMember_spec, Res.bind_ok, tokLoop_past _ _ _ _ _ hpast]
+            rw [splitMember_spec, IxRes.bind_ok, tokLoop_past _ _ _ _ _ hpast]
             rfl
         | some r =>
           have e := (takeTok_some htk).1
@@ -305,10 +305,10 @@ theorem tokLoop_spec (s : Bytes) (msep kvsep : UInt8) : ∀ (fuel : Nat) (rest p
           by_cases htok : tok = []
           · -- an empty pair: the separator right at `index`
             subst htok
-            simp only [List.length_nil, Nat.add_zero, if_true, Res.bind_ok]
+            simp only [List.length_nil, Nat.add_zero, if_true, IxRes.bind_ok]
             have hs' : pre ++ c :: t = pre ++ [msep] ++ r := by rw [e]; simp
             have ht3 := trim3_spec pre [msep] r pre.length (by simp)
-            rw [hs', ht3, Res.bind_ok]
+            rw [hs', ht3, IxRes.bind_ok]
             simp only [Bool.or_true, if_true]
             have hidx : pre.length + 2 - 1 = (pre ++ [msep]).length := by simp
             rw [hidx, ← hs', ← hs]
@@ -320,11 +320,11 @@ theorem tokLoop_spec (s : Bytes) (msep kvsep : UInt8) : ∀ (fuel : Nat) (rest p
               | nil => exact absurd rfl htok
               | cons _ _ => simp
             have hne : ¬ pre.length + tok.length = pre.length := by omega
-            rw [if_neg hne, usub_ok _ _ (by omega), Res.map_ok, Res.bind_ok]
+            rw [if_neg hne, usub_ok _ _ (by omega), IxRes.map_ok, IxRes.bind_ok]
             simp only []
             have hs' : pre ++ c :: t = pre ++ tok ++ (msep :: r) := by rw [e]; simp
             have ht3 := trim3_spec pre tok (msep :: r) (pre.length + tok.length - 1) (by omega)
-            rw [hs', ht3, Res.bind_ok]
+            rw [hs', ht3, IxRes.bind_ok]
             have hidx : pre.length + tok.length - 1 + 2 = (pre ++ tok ++ [msep]).length := by simp; omega
             have hs'' : pre ++ tok ++ msep :: r = (pre ++ tok ++ [msep]) ++ r := by simp
             have hrec := ih r (pre ++ tok ++ [msep]) (pre ++ tok ++ [msep]).length (by rw [hs, hs', hs'']) rfl
@@ -336,7 +336,7 @@ theorem tokLoop_spec (s : Bytes) (msep kvsep : UInt8) : ∀ (fuel : Nat) (rest p
             · have hl : ¬ (trim tok).length = 0 := by
                 intro h0; apply hm; simpa [List.isEmpty_iff] using h0
               simp only [hl, decide_false, Bool.or_self, Bool.false_eq_true, if_false, hm]
-              rw [splitMember_spec, Res.bind_ok, hidx, ← hs', ← hs, hrec]
+              rw [splitMember_spec, IxRes.bind_ok, hidx, ← hs', ← hs, hrec]
               rfl
 
 /-- all results of the tokenizer on a header = the list members of `Model/KvList.lean`, each split at its first `=` -/
